@@ -16,16 +16,17 @@ from props import build_common as bc
 import pegdump
 
 WF_DEF = """
-Definition show_wf (g : grammar) (c : config) (tbl : list ((nat * nat) * nat)) (fuel : nat) (input : list N) : string :=
+Definition show_wf (g : grammar) (c : config) (mm : list ninfo) (tbl : list ((nat * nat) * nat)) (fuel : nat) (input : list N) : string :=
   match run g c (orc_of tbl) false fuel input with
-  | Parsed (RTree (NT _ (t :: _))) => if wf_tree t then "T" else "F"
+  | Parsed (RTree (NT _ (t :: _))) => (if wf_tree t then "T" else "F") ++ (if asg_placed mm false t then "T" else "F") ++
+      (if (wfg g 24 && nosep g && eof_ok g && negb (existsb (fun e => Nat.eqb (snd e) 0) tbl))%bool then "T" else "F")
   | _ => "-"
   end.
 """
 
 
 def wf_expr(ci, res, run, text):
-    return "show_wf g%d c%d %s %d %s" % (ci, ci, pegdump.coq_table(run["table"]), bc.FUEL, pegdump.coq_str(text))
+    return "show_wf g%d c%d m%d %s %d %s" % (ci, ci, ci, pegdump.coq_table(run["table"]), bc.FUEL, pegdump.coq_str(text))
 
 
 def location_spec(text, pos):
@@ -75,8 +76,9 @@ def run(chk):
     n, per = (450, 4) if chk.thorough else (90, 3)
     cases = bc.gen_cases(chk, n, per, files=True)
     results = bc.run_impl(cases)
-    from props.c01 import spec_expr, SPEC_IMPORTS, spec_extents, classify_dump, nid_class   # shared with C01
-    vals, errs = bc.eval_model("C06", results, [bc.build_expr, wf_expr, spec_expr], imports=SPEC_IMPORTS + WF_DEF)
+    from props.c01 import spec_expr, SPEC_IMPORTS, spec_extents, classify_dump, feature_tags, nid_class   # shared with C01
+    vals, errs = bc.eval_model("C06", results, [bc.build_expr, wf_expr, spec_expr],
+                                imports=SPEC_IMPORTS.replace("Model.Spec.", "Model.Spec Proofs.SpecProofs Proofs.SpecSepProofs Proofs.SpecWf.", 1) + WF_DEF)
     disagreements, failures = [], []
     if errs:
         disagreements.append({"case": "coq evaluation", "model": errs[:2]})
@@ -84,7 +86,7 @@ def run(chk):
         if res["grammar_error"]:
             chk.stat("grammar rejected: " + res["grammar_error"].split(":")[0])
             continue
-        cls_tags = classify_dump(res["dump"])
+        cls_tags = classify_dump(res["dump"]) | feature_tags(res["dump"])
         cls_of = nid_class(res)
         for ii, (text, run_) in enumerate(zip(case["inputs"], res["runs"])):
             if run_.get("timeout") or run_.get("unsupported"):
@@ -116,7 +118,15 @@ def run(chk):
                     if mf.get("err") != "unsup" and not bc.outcomes_agree(mf, fm):
                         disagreements.append({"case": dict(cinfo, load="file"), "impl": fm, "model": mf})
             # ---- property oracle on the implementation
-            wf = mv[1]
+            wf = mv[1][:1]
+            if mv[1][2:3] == "T" and wf == "F":
+                # C06_run_wf: in the class, without separators, EOF only at the top, no empty regex match: the tree is well formed
+                disagreements.append({"case": cinfo, "impl": "tree not well formed although the hypotheses of C06_run_wf hold", "model": mv[1]})
+            if mv[1][2:3] == "T":
+                chk.stat("trees covered by C06_run_wf")
+            if mv[1][1:2] == "F":
+                # hypothesis of C06_objects_nested_ordered: assignment nodes are children of common-rule nodes
+                disagreements.append({"case": cinfo, "impl": "an assignment node outside a common-rule node in the parse tree", "model": mv[1]})
             chk.stat("model tree: %s" % {"T": "well-formed", "F": "not well-formed", "-": "no tree"}.get(wf, "?"))
             for which, out, fname in (("str", im, None), ("file", fm, run_.get("file_name"))):
                 if out is None or not out["ok"] or (which == "file" and "\r" in text):
